@@ -3,5 +3,7 @@ CONSTANTS Coords <- TCoords
   PEnergies <- QPEnergies
   Shapes <- TShapes
   PTols <- QPTols
+  PScales <- QPScales
 INVARIANT IdenticalPopulationConverged
+INVARIANT PopHomogeneous
 INVARIANT Emit
